@@ -533,6 +533,7 @@ type Contract struct {
 	Fresh    []string // results / places declared fresh (not aliasing any input)
 	MaybeNil []string
 	Uses     []string // lemmas (by name) assumed as hypotheses inside this function
+	Afters   map[string][]*Clause // "pkg.F#k" -> assertions proved (then assumed) right after the block-level statement containing the k-th call of pkg.F
 	Hide     []string // spec functions whose defining axioms (`;@ defines f` in the prelude) are not shipped with this function's VCs
 	Inlines  []string          // lemma functions: callees to execute by their bodies although they have contracts
 	Unrolls  map[string]int    // "pkg.Func#loop" -> max iterations (lemma functions: unroll instead of cutting at invariants)
@@ -568,7 +569,7 @@ type ContractSet struct {
 var clauseKeywords = map[string]bool{
 	"func": true, "props": true, "requires": true, "ensures": true, "assigns": true, "loop": true, "alias": true,
 	"inline": true, "trusted": true, "panics": true, "nooverflow": true, "lemma": true, "pure": true, "opaque": true,
-	"extern": true, "assert": true, "fresh": true, "maybenil": true, "package": true, "pred": true, "tagset": true, "aset": true, "reads": true, "inlines": true, "unroll": true, "exit": true, "use": true, "hide": true,
+	"extern": true, "assert": true, "fresh": true, "maybenil": true, "package": true, "pred": true, "tagset": true, "aset": true, "reads": true, "inlines": true, "unroll": true, "exit": true, "use": true, "hide": true, "after": true,
 }
 
 // assignSets: `//@ aset name := $.f, $.g[0:4]` — a reusable list of assigns items, `$` is the argument.
@@ -790,6 +791,28 @@ func (cs *ContractSet) ReadFile(path, pkgName string, external bool) error {
 					return err
 				}
 				cur.Asserts = append(cur.Asserts, c)
+			case "after":
+				// after pkg.F k assert[tags] expr
+				f := strings.Fields(rest)
+				if len(f) < 4 || !strings.HasPrefix(f[2], "assert") {
+					return fmt.Errorf("%s: after needs 'pkg.F k assert[tags] expr'", l.pos)
+				}
+				callee := f[0]
+				if !strings.Contains(callee, ".") {
+					callee = pkgName + "." + callee
+				}
+				i := strings.Index(rest, f[2])
+				_, atags := splitTags(f[2])
+				body := strings.TrimSpace(rest[i+len(f[2]):])
+				e, err := ParseCExpr(body, l.pos)
+				if err != nil {
+					return err
+				}
+				if cur.Afters == nil {
+					cur.Afters = map[string][]*Clause{}
+				}
+				k := callee + "#" + f[1]
+				cur.Afters[k] = append(cur.Afters[k], &Clause{Tags: atags, E: e, Src: body, Pos: l.pos})
 			case "assigns":
 				items := splitTopLevel(rest, ',')
 				for k := 0; k < len(items); k++ {
